@@ -38,6 +38,7 @@ fn cmd_sim(args: &[String]) -> i32 {
             "sched" => gen::gen_sched(seed, n),
             "storm" => gen::gen_storm(seed, n),
             "nat" => gen::gen_nat(seed, n),
+            "codec" => gen::gen_codec(seed, n),
             f => {
                 eprintln!("unknown family {f}");
                 return 2;
